@@ -96,8 +96,10 @@ def replay_of(line):
 
 
 def nontrivial(line):
-    """a history counts as non-trivial when at least one frame was delivered or an entry expired/was refused"""
-    return (",1;D" in line or ";D," in line) and any(p.startswith("D,") and not p.endswith(",-") for p in line.split()[3].split(";"))
+    """a history counts as non-trivial when at least one frame was delivered to some connection"""
+    parts = line.split()
+    body = parts[3] if len(parts) > 3 else ""
+    return any(p.startswith("D,") and not p.endswith(",-") for p in body.split(";"))
 
 
 def check(run, replay=None, prop="C15", harness_cmd="c15"):
